@@ -4,7 +4,7 @@ package vtime
 import (
 	"time"
 
-	"github.com/whoisnian/glb/zzverif/vsched"
+	"verif/engine/shim/vsched"
 )
 
 var fake *time.Time
